@@ -90,13 +90,20 @@ Definition set_sampling (s : lexstate) (v : Z) :=
 Inductive reset_variant :=
 | ResetCurrent | ResetNoStart | ResetNoPos | ResetNoM | ResetNoE | ResetNoTags | ResetNoErr.
 
-Definition reset_gen (v : reset_variant) (s : lexstate) : lexstate :=
-  let s := match v with ResetNoStart => s | _ => set_start s 0 end in
-  let s := match v with ResetNoPos => s | _ => set_pos s 0 end in
-  let s := match v with ResetNoM => s | _ => set_m s None end in
-  let s := match v with ResetNoE => s | _ => set_e s None end in
-  let s := match v with ResetNoTags => s | _ => set_tags s [] end in
-  match v with ResetNoErr => s | _ => set_err s None end.
+Definition variant_eqb (a b : reset_variant) : bool :=
+  match a, b with
+  | ResetCurrent, ResetCurrent | ResetNoStart, ResetNoStart | ResetNoPos, ResetNoPos
+  | ResetNoM, ResetNoM | ResetNoE, ResetNoE | ResetNoTags, ResetNoTags | ResetNoErr, ResetNoErr => true
+  | _, _ => false
+  end.
+
+Definition reset_gen (v : reset_variant) (s0 : lexstate) : lexstate :=
+  let s1 := if variant_eqb v ResetNoStart then s0 else set_start s0 0 in       (* l.start = 0 *)
+  let s2 := if variant_eqb v ResetNoPos then s1 else set_pos s1 0 in           (* l.pos = 0 *)
+  let s3 := if variant_eqb v ResetNoM then s2 else set_m s2 None in            (* l.m = nil *)
+  let s4 := if variant_eqb v ResetNoE then s3 else set_e s3 None in            (* l.e = nil *)
+  let s5 := if variant_eqb v ResetNoTags then s4 else set_tags s4 [] in        (* l.tags = nil *)
+  if variant_eqb v ResetNoErr then s5 else set_err s5 None.                    (* l.err = nil *)
 
 (* ---------------------------------------------------------------------------------------- *)
 (* the state functions *)
@@ -338,6 +345,13 @@ End WithOracle.
 Definition clean_metric (m : metric) : pmetric :=
   {| pm_name := m_name m; pm_value := m_value m; pm_rate := m_rate m; pm_tags := m_tags m;
      pm_tagskey := []; pm_strval := m_strval m; pm_src := []; pm_ts := 0; pm_type := Some (m_type m) |}.
+(* what handleDatagram looks at: the error first, then `if metric != nil` -- the event that may come
+   along with a metric is never inspected *)
+Definition parser_view (r : run_result) : run_result :=
+  match r with
+  | RR (Some m) _ None => RR (Some m) None None
+  | x => x
+  end.
 Definition raw_of (o : outcome) : run_result :=
   match o with
   | OMetric m => RR (Some (clean_metric m)) None None
